@@ -50,7 +50,7 @@ Items == IF Mode = "resize" THEN SetToSeq(ResizeRegions) ELSE SetToSeq(MColls)
 NItems == Len(Items)
 BatchSz == IF Mode = "resize" THEN 1 ELSE Batch
 NBatches == (NItems + BatchSz - 1) \div BatchSz
-PickedB == SelectSeq([j \in 1..NBatches |-> j], LAMBDA j : j % Stride = Offset % Stride)
+PickedB == SelectSeq([j \in 1..NBatches |-> j], LAMBDA j : (j + (j \div Stride) + (j \div (Stride * Stride))) % Stride = Offset % Stride)
 
 BatchJson(b) ==
   IF Mode = "resize"
